@@ -10,7 +10,7 @@ def part_of(what):
     if m:
         tgt = m.group(2)
         if tgt.startswith("archive"):
-            return m.group(1) + "/archive"
+            return m.group(1) + "/" + tgt.split("@")[0]
         if "manifest.json" in tgt:
             return m.group(1) + "/manifest"
         return m.group(1) + "/fragment"
